@@ -6,11 +6,11 @@
           admissible: own label, or the label of an earlier entry of the same table the traffic conforms to as well).
    Signatures of the bundled file are named by their p0f.fp line (tcp_entry / http_entry).
    Known classes of TRAFFIC (excused only while IMPL = MODEL): C03's K1 (bytes after end-of-options), K4 (quirk order),
-   K5 (malformed options; its NS-bit part was repaired by 9733023) and KV6 (df/id+/id-/0+ not ignored on IPv6, flow not
-   ignored on IPv4).  K7 is kept in `known_c03` for the shape of C03's lemmas but is false on every decoded segment
+   K5 (malformed options; its NS-bit part was repaired by 9733023).  The C13 class KV6 (df/id+/id-/0+ not ignored on IPv6,
+   flow not ignored on IPv4) was repaired by ecf5f15 and is gone.  K7 is kept in `known_c03` for the shape of C03's lemmas but is false on every decoded segment
    since 44d12e9 (window field above 65535).
    Status of the 199 + 99 bundled signatures, recomputed from Gen/Bundled.v by every build (lists and sizes:
-   Spec/ReachLists.v, written by harness/c13/tools/mk_lists.py; at /repo fdb1660):
+   Spec/ReachLists.v, written by harness/c13/tools/mk_lists.py; at /repo ecf5f15):
      TCP : 67 live at distance 0 (6 of the 12 `NN-` signatures among them since fdb1660) + 24 live at distance 1 (scale `0`
            written for a layout without `ws`; certificate Spec/ReachMinSpec.v), 107 dead (85 DeadValueWindow + 22
            DeadEolPad; one checked witness each), 1 undecided (line 313: MSS `0` written for a layout without `mss`,
@@ -74,12 +74,12 @@ Print Assumptions C13_tcp_observation_v6.
 (* soundness of the liveness decider: a conforming packet outside the known classes is at distance 0 *)
 Theorem C13_live_tcp_sound :
   forall (k : tkind) (s : tcp_sig) (g : segment),
-    seg_wf g -> live_tcp_b s = true -> conforms_seg_b k s g = true -> kv6 s g = false -> K5 g = false ->
+    seg_wf g -> live_tcp_b s = true -> conforms_seg_b k s g = true -> K5 g = false ->
     tcp_distance s (spec_sig g) = Some 0.
 Proof. exact live_zero. Qed.
 Check C13_live_tcp_sound :
   forall (k : tkind) (s : tcp_sig) (g : segment),
-    seg_wf g -> live_tcp_b s = true -> conforms_seg_b k s g = true -> kv6 s g = false -> K5 g = false ->
+    seg_wf g -> live_tcp_b s = true -> conforms_seg_b k s g = true -> K5 g = false ->
     tcp_distance s (spec_sig g) = Some 0.
 Print Assumptions C13_live_tcp_sound.
 
@@ -154,20 +154,20 @@ Print Assumptions C13_min_wins.
 (* the certificate is sound: own distance exactly 1; entries in front never at distance exactly 1; entries behind never at 0 *)
 Theorem C13_live1_own_distance :
   forall (k : tkind) (s : tcp_sig) (g : segment),
-    seg_wf g -> live1_tcp_b s = true -> conforms_seg_b k s g = true -> kv6 s g = false -> K5 g = false ->
+    seg_wf g -> live1_tcp_b s = true -> conforms_seg_b k s g = true -> K5 g = false ->
     tcp_distance s (spec_sig g) = Some 1.
 Proof.
-  intros k s g WF LV C KV K5F. apply live1_one; [exact (obs_char k s g WF LV C KV K5F)|].
+  intros k s g WF LV C K5F. apply live1_one; [exact (obs_char k s g WF LV C K5F)|].
   unfold live1_tcp_b in LV. repeat (apply andb_true_iff in LV; destruct LV as [LV ?]). assumption.
 Qed.
 Print Assumptions C13_live1_own_distance.
 Theorem C13_live1_separation :
   forall (k : tkind) (s t : tcp_sig) (g : segment) (e : N),
-    seg_wf g -> live1_tcp_b s = true -> conforms_seg_b k s g = true -> kv6 s g = false -> K5 g = false ->
+    seg_wf g -> live1_tcp_b s = true -> conforms_seg_b k s g = true -> K5 g = false ->
     tcp_distance t (spec_sig g) = Some e ->
     (sep_before s t = true -> e <> 1) /\ (sep_after s t = true -> e <> 0).
 Proof.
-  intros k s t g e WF LV C KV K5F D. pose proof (obs_char k s g WF LV C KV K5F) as OF.
+  intros k s t g e WF LV C K5F D. pose proof (obs_char k s g WF LV C K5F) as OF.
   split; intros S; [exact (sep_before_sound s t _ e OF S D) | exact (sep_after_sound s t _ e OF S D)].
 Qed.
 Print Assumptions C13_live1_separation.
@@ -250,16 +250,17 @@ Print Assumptions C13_dead_value_window_refuted.
 Theorem C13_dead_eol_pad_refuted : forall line, In line dead_eol_pad_lines -> tcp_refuted false line.
 Proof. exact dead_eol_pad_refuted. Qed.
 Print Assumptions C13_dead_eol_pad_refuted.
-(* KV6: a live signature loses its IPv6 traffic *)
-Theorem C13_known_kv6_refuted :
-  exists line, In line live_tcp_lines /\ tcp_refuted false line
-               /\ forallb (fun w => (fst w =? line) && match parse_tcp_case (snd w) with
-                                                       | Some (k, _, x) => match tcp_entry k line, seg_of x with
-                                                                           | Some (_, _, s), Some g => kv6 s g
-                                                                           | _, _ => false end
-                                                       | None => false end) wit_kv6 = true.
-Proof. exact known_kv6_refuted. Qed.
-Print Assumptions C13_known_kv6_refuted.
+(* KV6 (repaired by ecf5f15): the former witness, an IPv6 SYN for the Linux 3.11 signature of line 96, is matched now *)
+Theorem C13_former_kv6_witness_agrees :
+  forallb (fun w => match parse_tcp_case (snd w) with
+                    | Some (k, line, x) =>
+                        (line =? fst w) && existsb (N.eqb line) live_tcp_lines &&
+                        match judge_tcp k line x, x with
+                        | Some v, T6 _ => v_admissible v && negb (v_known_traffic v)
+                        | _, _ => false end
+                    | None => false end) wit_former_kv6 = true /\ length wit_former_kv6 = 1%nat.
+Proof. exact former_kv6_witness_agrees. Qed.
+Print Assumptions C13_former_kv6_witness_agrees.
 
 (* ---- HTTP ---- *)
 (* all databases: a signature that passes the finite-abstraction check (Spec/ReachHttpSpec.v live_http_b) is reachable by
